@@ -3,7 +3,7 @@ namespace Oracle.Handlers.Expr
 open InfluxQL Oracle
 
 def handle (stream : String) (args : List String) : Option String :=
-  match (if stream = "parse.chain" ∨ stream = "dur.literal" then "parse.expr" else stream), args with
+  match (if stream = "parse.chain" ∨ stream = "dur.literal" ∨ stream = "parse.errpos" then "parse.expr" else stream), args with
   | "parse.expr", [a, p, l] =>
     match decStr a, decParams p, decLower l with
     | some text, some params, some tbl =>
